@@ -262,7 +262,37 @@ def long_samples(ctx, with_model=True):
     return first
 
 
+def buffer_model(ctx):
+    """the per-step record buffer `RunningState` vs the Lean `RState` (Tdgl/RunningState.lean) on random operation
+    sequences shaped like the loop's (clear at window starts, at most `width` appends per window, flush before a clear),
+    plus the property the theorems state: a flushed row holds the window's values followed by zeros"""
+    from tdgl.solver.runner import RunningState
+
+    rng = ctx.rng
+    for rep in range(12 if ctx.quick else 120):
+        width = int(rng.integers(1, 7))
+        rs = RunningState({"dt": 1, "mu": 2}, width)
+        ops, rows, ok_rows = [], [], True
+        for _ in range(int(rng.integers(1, 6))):
+            m = int(rng.integers(0, width + 1))
+            vals = rng.uniform(1e-4, 1e-1, size=m)
+            rs.clear(); ops.append("c")
+            for v in vals:
+                rs.append("dt", v); rs.append("mu", np.array([v, -v])); rs.step += 1
+                ops.append(f"a{V.bits(float(v))}")
+            row = np.array(rs.values["dt"][0], dtype=float)
+            rows.append(" ".join(str(V.bits(float(x))) for x in row)); ops.append("f")
+            ok_rows = ok_rows and np.array_equal(row, np.concatenate([vals, np.zeros(width - m)])) and np.array_equal(rs.values["mu"][1], np.concatenate([-vals, np.zeros(width - m)]))
+        (out,) = V.driver([f"rs {width} | " + " ".join(ops)])
+        ctx.traces += 1
+        ctx.case(("buffer", width, rep), nontrivial=True)
+        ctx.corr(out.strip() == " ; ".join(rows), "RunningState rows vs RState (Lean)", dict(width=width, ops=ops[:12], model=out[:120], impl=" ; ".join(rows)[:120]))
+        if not ok_rows:
+            ctx.fail("buffer-row", "a frame row of the per-step buffer is not 'the values of its window followed by zeros'", dict(width=width, ops=ops[:20]))
+
+
 def run(ctx):
+    buffer_model(ctx)
     Nmax = 6 if ctx.quick else 12
     for cfg in configs(ctx.quick):
         run_config(ctx, cfg, Nmax)
